@@ -7,6 +7,14 @@ import (
 	"sync"
 )
 
+// MaxSwampNameLength is the longest swamp name the 2-byte NameLength field of
+// the file header can describe.
+const MaxSwampNameLength = 65535
+
+// ErrSwampNameTooLong is returned when a new file is requested for a swamp
+// name that does not fit the header.
+var ErrSwampNameTooLong = errors.New("swamp name exceeds the maximum encodable length of 65535 bytes")
+
 // FileWriter handles append-only writes to a .hyd file.
 // It manages the write buffer and flushes blocks to disk.
 type FileWriter struct {
@@ -93,6 +101,12 @@ func NewFileWriterWithName(filePath string, maxBlockSize int, swampName string) 
 // If swampName is set, creates a V3 file with the name stored after the header.
 // Otherwise creates a V3 file with NameLength=0.
 func (fw *FileWriter) createNewFile() error {
+	// The header stores the name length in two bytes; a longer name would be
+	// written with a wrapped length and the file could never be read back.
+	if len(fw.swampName) > MaxSwampNameLength {
+		return ErrSwampNameTooLong
+	}
+
 	file, err := os.Create(fw.filePath)
 	if err != nil {
 		return err
